@@ -245,7 +245,7 @@ package coroutines
 //@ site loop 3 batch assert cmd.UpdateTask.State == task.Enqueued ==> err == nil && completion.Sender.Success && decodedT.Mesg.Type != message.Notify
 //@ site loop 3 batch assert decodedT.Mesg.Type == message.Notify ==> cmd.UpdateTask.State == task.Completed
 // the deadline until which a dispatched task waits to be claimed (or retried) is the configured delay, in the clock's unit (milliseconds)
-//@ site loop 3 batch assert cmd.UpdateTask.State != task.Completed ==> cmd.UpdateTask.ExpiresAt >= now0() + config.TaskEnqueueDelay / 1000000 && cmd.UpdateTask.ExpiresAt <= now() + config.TaskEnqueueDelay / 1000000
+//@ site loop 3 batch assert [C06 C08] cmd.UpdateTask.State != task.Completed ==> cmd.UpdateTask.ExpiresAt >= now0() + config.TaskEnqueueDelay / 1000000 && cmd.UpdateTask.ExpiresAt <= now() + config.TaskEnqueueDelay / 1000000
 //@ site loop 3 batch assert decodedT.Mesg.Type != message.Notify && !(err == nil && completion.Sender.Success) ==> cmd.UpdateTask.State == task.Init && cmd.UpdateTask.Attempt == t.Attempt + 1
 
 //@ func SchedulePromises$1
